@@ -31,15 +31,34 @@ def _problem():
     burg = st.builds(lambda s: (dict(name="burgers"), s, None), gen.state_scalar(True, 0.3, 2.0, special=False))
     eul = st.builds(lambda md, s, fl: (md, s, fl), gen.model_euler1d(), gen.state_euler(False, lnrange=0.5, machmax=1.2, smooth_amp=0.1), st.sampled_from(["hlle", "hllc"]))
     sw = st.builds(lambda md, s, fl: (md, s, fl), gen.model_shallowwater(), gen.state_sw(False, lnrange=0.5, frmax=1.2, smooth_amp=0.1), st.sampled_from(["hll", "rusanov"]))
-    return st.one_of(conv, conv, burg, eul, sw)
+    e2d = st.builds(lambda md, s, fl, me, k: (md, s, fl, me, k), gen.model_euler2d(), gen.state_euler2d(False, lnrange=0.4, machmax=1.0, smooth_amp=0.1), st.sampled_from(["hlle", "centered"]),
+                    gen.mesh2d(2, 3), st.one_of(st.none(), gen.f(-1, 1)))
+    return st.one_of(conv, conv, burg, eul, sw, e2d)
 
 
 def _build(case):
     md = case["model"]
+    if md["name"] == "euler2d":
+        per = {"type": "per"}
+        num = dict(name="extrapol2d1") if case.get("k2d") is None else dict(name="extrapol2dk", k=case["k2d"])
+        P = sim.problem2d(dict(model=md, mesh2d=case["mesh2d"], num=num, flux=case["flux"], state=case["state"], bc=dict(left=per, right=per, bottom=per, top=per)))
+        P.field.time = case.get("t0", 0.0)
+        return P
     c = dict(model=md, mesh=case["mesh"], num=case["num"], flux=case["flux"], state=case["state"], bcL={"type": "per"}, bcR={"type": "per"})
     P = sim.problem1d(c)
     P.field.time = case.get("t0", 0.0)
     return P
+
+
+def _pr(pr, integ):
+    """problem tuple -> descriptor keys; implicit integrators do not support the vector momentum of euler2d: explicit one instead"""
+    d = dict(model=pr[0], state=pr[1], flux=pr[2])
+    if len(pr) > 3:
+        d.update(mesh2d=pr[3], k2d=pr[4])
+        if cases.is_implicit(integ):
+            integ = "rk3ssp"
+    d["integ"] = integ
+    return d
 
 
 def _mesh():
@@ -53,7 +72,7 @@ def _num():
 # ---------------------------------------------------------------- single step
 def strat_step(tier):
     ex, im = cases.integrator_names()
-    return st.builds(lambda pr, me, num, integ, t0, cfl, loc: dict(model=pr[0], state=pr[1], flux=pr[2], mesh=me, num=num, integ=integ, t0=t0, cfl=cfl, local=loc),
+    return st.builds(lambda pr, me, num, integ, t0, cfl, loc: dict(_pr(pr, integ), mesh=me, num=num, t0=t0, cfl=cfl, local=loc),
                      _problem(), _mesh(), _num(), st.sampled_from(ex + im), st.one_of(st.just(0.0), gen.sfloat(-2, 3)), gen.logf(-2, 0), st.booleans())
 
 
@@ -97,7 +116,7 @@ def _stop():
 def strat_hist(tier):
     ex, im = cases.integrator_names()
     return st.builds(lambda pr, me, num, integ, t0, cfl, ts, stp, dtl, rst, ts2, stp2: dict(
-        model=pr[0], state=pr[1], flux=pr[2], mesh=me, num=num, integ=integ, t0=t0, cfl=cfl, tsave=ts, stop=stp, dtlocal=dtl, restart=rst, tsave2=ts2, stop2=stp2),
+        _pr(pr, integ), mesh=me, num=num, t0=t0, cfl=cfl, tsave=ts, stop=stp, dtlocal=dtl, restart=rst, tsave2=ts2, stop2=stp2),
         _problem(), _mesh(), _num(), st.sampled_from(ex + im), st.one_of(st.just(0.0), gen.sfloat(-1, 2)), gen.f(0.05, 0.9), _rel_times(), _stop(), st.booleans(), st.booleans(), _rel_times(), _stop())
 
 
